@@ -113,13 +113,16 @@ class Box:
                 stride = strides[1]
                 skirt_top_remainder = skirt[0] % upscaling_factor
 
-                total_stride = stride * (new_end_coord[-3] - new_start_coord[-3] - 1)
+                # The padding follows from the last OFM row of the box, which can lie below the IFM height when a PAD was fused
+                # into an operator with an even kernel (the OFM is then taller than the IFM); only upscaled coordinates are clamped
+                ofm_end_h = original_end_coord[-3] if upscaling_factor == 1 else new_end_coord[-3]
+                total_stride = stride * (ofm_end_h - new_start_coord[-3] - 1)
                 new_start_coord[-3] = new_start_coord[-3] * stride - skirt[0] + skirt_top_remainder
 
                 pad_top = max(0, 0 - new_start_coord[-3]) + skirt_top_remainder
                 new_start_coord[-3] = max(new_start_coord[-3], 0)
 
-                if (new_end_coord[-3] * stride + skirt[2]) > (window_shape.height * upscaling_factor):
+                if (ofm_end_h * stride + skirt[2]) > (window_shape.height * upscaling_factor):
                     # pad_bottom is calculated based the diff between the end position of the weight kernel,
                     # after last stride and the ifm height.
                     if upscaling_factor != 1 and original_end_coord[-3] > window_shape.height * upscaling_factor:
